@@ -179,11 +179,19 @@ func (p *FloatingIPPlugin) unbind(pod *corev1.Pod) error {
 		return err
 	}
 	key := keyObj.KeyInDB
-	if p.cloudProvider != nil {
-		ipInfos, err := p.ipam.ByKeyAndIPRanges(key, nil)
-		if err != nil {
-			return fmt.Errorf("query floating ip by key %s: %v", key, err)
+	ipInfos, err := p.ipam.ByKeyAndIPRanges(key, nil)
+	if err != nil {
+		return fmt.Errorf("query floating ip by key %s: %v", key, err)
+	}
+	for _, ipInfo := range ipInfos {
+		if ipInfo.PodUid != "" && ipInfo.PodUid != string(pod.UID) {
+			// a newer pod with the same name has taken over the ip, this event of the old pod is stale
+			glog.Infof("ignore unbind of pod %s uid %s, ip %s is held by pod uid %s", key, pod.UID,
+				ipInfo.IPInfo.IP.IP.String(), ipInfo.PodUid)
+			return nil
 		}
+	}
+	if p.cloudProvider != nil {
 		for _, ipInfo := range ipInfos {
 			ipStr := ipInfo.IPInfo.IP.IP.String()
 			glog.Infof("UnAssignIP nodeName %s, ip %s, key %s", ipInfo.NodeName, ipStr, key)
